@@ -76,6 +76,7 @@ pub fn arb_cfg(o: &HistOpts) -> BoxedStrategy<ClientCfg> {
     let cred = prop_oneof![
         4 => Just(("user".to_string(), "secret-pass".to_string())),
         2 => (arb_keytext(24), arb_keytext(24)),
+        1 => (arb_keytext(24), arb_password()),
     ];
     (reliable, rto, gran, rm, rc, mech, fp, max_tx, cred)
         .prop_map(|(reliable, rto_us, gran_us, rm, rc, mech, fingerprint, max_tx, (user, password))| ClientCfg {
@@ -152,8 +153,8 @@ pub fn arb_reply() -> BoxedStrategy<Reply> {
         1 => Just(Auth::WrongKeyMi),
         1 => Just(Auth::WrongKeySha),
     ];
-    let fp = prop_oneof![6 => Just(FpMode::Valid), 3 => Just(FpMode::Absent), 1 => Just(FpMode::Corrupt), 1 => Just(FpMode::Misplaced)];
-    (target, body, 0u8..4, auth, fp, prop_oneof![5 => Just(false), 1 => Just(true)], prop_oneof![5 => Just(0u8), 1 => 0u8..16])
+    let fp = prop_oneof![6 => Just(FpMode::Valid), 3 => Just(FpMode::Absent), 1 => Just(FpMode::Corrupt), 1 => Just(FpMode::Misplaced), 1 => Just(FpMode::CorruptThenValid)];
+    (target, body, 0u8..4, auth, fp, prop_oneof![5 => Just(false), 1 => Just(true)], prop_oneof![5 => Just(0u8), 2 => 0u8..32])
         .prop_map(|(target, body, extra, auth, fp, dup, twist)| Reply { target, body, extra, auth, fp, dup, twist })
         .boxed()
 }
